@@ -64,6 +64,74 @@ fn populate(dir: &Path, cfg: (&str, bool)) -> Result<String, String> {
     Ok(d)
 }
 
+/// a small history whose results depend on the configuration: the Probe contract records whether the current-txid
+/// helper answers (Prague rules of the network), a signed transaction gets its hash by the network's rule, traces are
+/// recorded or not. Returns what the instance serves about it.
+pub fn populate_rich(dir: &Path, cfg: (&str, bool)) -> Result<String, String> {
+    use crate::programs as pg;
+    let srv = Server::start(cfg.0, cfg.1, &dir.to_string_lossy(), None)?;
+    let mut c = Client::new(srv.port);
+    let simcfg = crate::inst::SimConfig { network: cfg.0.to_string(), ..Default::default() };
+    let w = crate::world::World::new(crate::inst::Instance::closed(), simcfg);
+    let raw = w.sign_tx(0, 0, Some(crate::world::parse_addr(crate::world::DEAD)), vec![1, 2, 3], true);
+    let txid = format!("0x{}", "5a".repeat(32));
+    let ts = 1_700_000_001u64;
+    c.call("brc20_initialise", json!([ZERO_HASH, 1_700_000_000u64, 0]), None)?;
+    let dep = c.call("brc20_deploy", json!([pkscript(0), crate::world::hex0x(&pg::probe_initcode()), null, ts, ZERO_HASH, 0, "c20-probe", 2000, txid]), None)?;
+    let probe = dep["result"]["contractAddress"].as_str().unwrap_or("").to_string();
+    c.call("brc20_call", json!([pkscript(1), probe, null, crate::world::hex0x(&pg::cd_probe(&[1])), null, ts, ZERO_HASH, 1, "c20-call", 2000, txid]), None)?;
+    let signed = c.call("brc20_transact", json!([crate::world::hex0x(&raw), null, ts, ZERO_HASH, 2, "c20-signed", 2000, txid]), None)?;
+    let th = signed["result"][0]["transactionHash"].as_str().unwrap_or("").to_string();
+    c.call("brc20_finaliseBlock", json!([ts, ZERO_HASH, 3]), None)?;
+    c.call("brc20_commitToDatabase", json!([]), None)?;
+    let mut s = String::new();
+    let mut qs: Vec<(&str, Value)> = vec![
+        ("eth_getBlockByNumber", json!(["0x1", true])),
+        ("debug_getRawBlock", json!(["0x1"])),
+        ("debug_getBlockTraceString", json!(["0x1"])),
+        ("eth_getTransactionReceipt", json!([th])),
+        ("debug_traceTransaction", json!([th])),
+        ("eth_chainId", json!([])),
+    ];
+    for i in 0..13u64 {
+        qs.push(("eth_getStorageAt", json!([probe, format!("0x{:x}", pg::PROBE_BASE + i)])));
+    }
+    for (m, p) in qs {
+        let mut v = c.call(m, p, None)?;
+        if let Some(o) = v.pointer_mut("/result/mineTimestamp") {
+            *o = json!("0x0");
+        }
+        s.push_str(&v.to_string());
+    }
+    drop(c);
+    srv.stop();
+    if probe.is_empty() || th.is_empty() {
+        return Err(format!("rich history did not run: deploy {dep} transact {signed}"));
+    }
+    Ok(sha_hex(&s))
+}
+
+/// `sim c20-child <network> <traces> <dir>`: the rich history in a process that never saw another configuration
+pub fn child_main(network: &str, traces: &str, dir: &str, warm: Option<(&str, &str, &str)>) -> i32 {
+    if let Some((wn, wt, wd)) = warm {
+        // this process's first instance runs under another configuration
+        if let Err(e) = populate_rich(Path::new(wd), (wn, wt == "true")) {
+            println!("ERROR warm-up: {e}");
+            return 3;
+        }
+    }
+    match populate_rich(Path::new(dir), (network, traces == "true")) {
+        Ok(d) => {
+            println!("DIGEST {d}");
+            0
+        }
+        Err(e) => {
+            println!("ERROR {e}");
+            3
+        }
+    }
+}
+
 thread_local! { static STARTS: std::cell::Cell<u64> = const { std::cell::Cell::new(0) }; }
 
 fn try_start(dir: &Path, cfg: (&str, bool)) -> Result<String, String> {
@@ -307,6 +375,51 @@ fn run_creator(ci: usize) -> (Option<Violation>, Stats, String) {
             let _ = std::fs::remove_dir_all(&d);
         }
     }
+    // 5. what a directory holds is computed under its own configuration, whatever the process ran before: one child
+    // process runs another configuration first (other network rules, other trace setting) and then this one, a second
+    // child process only ever runs this one; both must serve the same
+    {
+        let other = (if creator.0 == "mainnet" || creator.0 == "bitcoin" { "regtest" } else { "mainnet" }, !creator.1);
+        let run_child = |warm: Option<(&str, bool)>| -> Result<String, String> {
+            let d = fresh_dir("c20-child");
+            let dw = fresh_dir("c20-child-warm");
+            let exe = std::env::current_exe().map_err(|e| e.to_string())?;
+            let mut args: Vec<String> = vec!["c20-child".into(), creator.0.into(), creator.1.to_string(), d.to_string_lossy().to_string()];
+            if let Some((wn, wt)) = warm {
+                args.extend([wn.to_string(), wt.to_string(), dw.to_string_lossy().to_string()]);
+            }
+            let out = std::process::Command::new(exe).args(&args).stderr(std::process::Stdio::null()).output().map_err(|e| e.to_string());
+            let _ = std::fs::remove_dir_all(&d);
+            let _ = std::fs::remove_dir_all(&dw);
+            let out = out?;
+            let text = String::from_utf8_lossy(&out.stdout).to_string();
+            text.lines().find_map(|l| l.strip_prefix("DIGEST ").map(|x| x.to_string())).ok_or(text)
+        };
+        let warm: Result<(), String> = Ok(());
+        let here = run_child(Some(other));
+        let child_digest = run_child(None).ok();
+        stats.bump("configuration_after_another_in_one_process");
+        tr.push('P');
+        match (&warm, &here, &child_digest) {
+            (Ok(_), Ok(h), Some(cd)) => {
+                if h != cd {
+                    cleanup(&[&base]);
+                    return (
+                        Some(Violation::new(
+                            "data-computed-under-an-earlier-instances-configuration",
+                            json!({"config": creator, "ran_before_in_this_process": other, "digest_after_the_other_configuration": h, "digest_in_a_process_of_its_own": cd}),
+                        )),
+                        stats,
+                        tr,
+                    );
+                }
+            }
+            _ => {
+                cleanup(&[&base]);
+                return (Some(Violation::new("harness/rich-history", json!({"warm": warm.err(), "here": here.err(), "child": child_digest}))), stats, tr);
+            }
+        }
+    }
     cleanup(&[&base]);
     stats.add("start_attempts", STARTS.with(|s| s.replace(0)));
     (None, stats, tr)
@@ -342,7 +455,7 @@ impl Prop for C20 {
         vec![]
     }
     fn rule(&self) -> String {
-        "case = one creating configuration out of networks {mainnet, bitcoin, signet, testnet, testnet4, regtest, weird, empty string} x traces {off,on} (run i of the batch takes configuration i: 16 runs = all of them). With the real start(): create + populate + commit + stop; then (1) reopen a copy under each of the 16 configurations: identical => starts and serves the same digest, different => start fails and the original configuration still reopens with the same digest; (2) each of the 4 recorded keys removed / altered (to other numbers, non-numeric text, empty, padded, other case) directly in the config RocksDB => start fails; (3) populated directory without config database, foreign non-empty directory => start fails; (4) every write of the first-run recording is a crash point: the restart either fails or runs with the complete record, and a different configuration is never accepted by the half-recorded directory. distinct = creating configuration; non-trivial = all four groups ran".into()
+        "case = one creating configuration out of networks {mainnet, bitcoin, signet, testnet, testnet4, regtest, weird, empty string} x traces {off,on} (run i of the batch takes configuration i: 16 runs = all of them). With the real start(): create + populate + commit + stop; then (1) reopen a copy under each of the 16 configurations: identical => starts and serves the same digest, different => start fails and the original configuration still reopens with the same digest; (2) each of the 4 recorded keys removed / altered (to other numbers, non-numeric text, empty, padded, other case) directly in the config RocksDB => start fails; (3) populated directory without config database, foreign non-empty directory => start fails; (4) every write of the first-run recording is a crash point: the restart either fails or runs with the complete record, and a different configuration is never accepted by the half-recorded directory. (5) a child process runs a small history under another configuration (other network family, other trace setting) first and then under the creating configuration on a fresh directory: what it serves (Probe contract context incl. the current-txid helper, hash of a signed transaction, traces, raw block) must equal what a child process that only ever ran the creating configuration serves. distinct = creating configuration; non-trivial = all five groups ran".into()
     }
     fn assumptions(&self) -> Vec<String> {
         vec!["PROTOCOL_VERSION / DB_VERSION cannot vary within one build; they are varied by tampering with the stored record".into()]
